@@ -7,7 +7,7 @@
    [compile_pinned] the code as pinned; both are [compile_gen fixed]. *)
 From Coq Require Import List NArith ZArith Bool String.
 From RareV Require Import Gen.GenTmpl Base.Res Base.Hex Base.Num Model.IsSpace Model.Tmpl Model.TmplPrint
-  Proofs.TmplFuel Proofs.TmplEsc Proofs.TmplCopy Proofs.TmplTree Proofs.TmplMain Proofs.TmplEval.
+  Proofs.TmplFuel Proofs.TmplEsc Proofs.TmplCopy Proofs.TmplTree Proofs.TmplMain Proofs.TmplEscTree Proofs.TmplEval.
 Import ListNotations.
 Local Open Scope N_scope.
 
@@ -54,6 +54,21 @@ Theorem C09_print_parse : forall fixed fs c,
   compile_gen fixed fs (print c) = Ok (norm (erase c), []).
 Proof. exact print_parse. Qed.
 Print Assumptions C09_print_parse.
+
+(* The same clause for literal text over ALL runes (space, backslash, braces, double quote,
+   control characters) at any nesting depth, printed with layered escapes: every layer a text
+   travels through (statement scanner, argument splitter, compile of the argument) removes
+   exactly one backslash level regardless of brace depth, so a literal of a template that has j
+   layers to go is written [lescn (j+1)] (a backslash before every syntax and white-space rune,
+   j+1 times: 2^(2d+1)-1 backslashes at call depth d); arguments have two more layers to go than
+   the statement they occur in.  Admissible [wfe_tmpl]: literal text arbitrary; words and names
+   as in C09_print_parse; a quoted argument contains no quoted item; an unquoted argument is
+   non-empty (its white space is escaped). *)
+Theorem C09_print_parse_escaped : forall fixed fs c,
+  wfe_tmpl c = true -> fn_ok_tmpl fs c = true ->
+  compile_gen fixed fs (eprint 0 c) = Ok (norm (erase c), []).
+Proof. exact print_parse_escaped. Qed.
+Print Assumptions C09_print_parse_escaped.
 
 (* ... and normalisation does not change the value (probe evaluation: literals as they are,
    look-ups and calls rendered visibly) *)
@@ -148,6 +163,20 @@ Proof. reflexivity. Qed.
 Theorem C09_gen_errors :
   map fst compile_errors = ["ErrorUnterminated"; "ErrorEmptyStatement"; "ErrorMissingFunction"]%string.
 Proof. reflexivity. Qed.
+
+(* non-vacuity of the escaped form: text, then f0 of (f1 of a quoted literal with a blank and a bare
+   literal with a backslash) and of a bare literal made of brace, q, double quote, brace; 7 and 31 backslashes *)
+Definition ex_etree : ctmpl :=
+  [CLit [120;32];
+   CCall [] false [102;48]
+     [CArg [32] false [CCall [] false [102;49] [CArg [32] true [CLit [97;32;98]]; CArg [32] false [CLit [67;58;92;100;105;114]]] []];
+      CArg [32] false [CLit [123;113;34;125]]] []].
+Example C09_example_escaped :
+  wfe_tmpl ex_etree = true /\ fn_ok_tmpl probe_fs ex_etree = true /\
+  List.length (eprint 0 ex_etree) = 113%nat /\
+  compile probe_fs (eprint 0 ex_etree)
+  = Ok ([PLit [120;32]; PCall [102;48] [[PCall [102;49] [[PLit [97;32;98]]; [PLit [67;58;92;100;105;114]]]]; [PLit [123;113;34;125]]]], []).
+Proof. vm_compute. repeat split; reflexivity. Qed.
 
 (* non-vacuity: documentation-style examples *)
 Definition ex_fs : fenv := probe_fs.
